@@ -113,7 +113,8 @@ def quic_pair(case, seed):
     else:
         s.offered = (first, sel) if rng.random() < 0.5 else (first,) + tuple(x for x in rng.sample(PAIR_FIRST, 2) if x not in (first, sel)) + (sel,)
         s.zero_rtt, s.zero_rtt_before_retry, s.zero_rtt_coalesce = [], 0, False
-    s.key_updates = ()
+    # one key update where the history allows it: the next generation's keys are expanded with the selected suite's hash and key length as well
+    s.key_updates = (rng.randrange(1, len(s.app)),) if len(s.app) > 1 and case["id"].count("pair0") == 0 or len(s.app) > 1 and (sel == 0x1302 or (first + sel) % 2 == 0) else ()
     qc = quicsynth.build_qconn(s, rng)
     ep = tcpcap.random_ep(rng)
     fl = scene.quic_flow(qc, ep)
